@@ -85,7 +85,7 @@ fn main() {
 
     // 1. generated programs × layout variants, cut-off sweeps, cursor traces
     let thorough = args.thorough();
-    let n_prog = if thorough { 1200 } else { 220 };
+    let n_prog = if thorough { 1000 } else { 220 };
     let mut rng = Rng::new(args.seed);
     for i in 0..n_prog {
         let mut prng = rng.fork();
